@@ -916,9 +916,30 @@ func (ds *decState) assign(s *ast.AssignStmt) {
 		if sel, ok := c.Fun.(*ast.SelectorExpr); ok && sel.Sel.Name == "UnmarshalBinary" && len(c.Args) == 1 && lc.obj(c.Args[0]) == lc.data {
 			if tv, ok := lc.info.Types[sel.X]; ok && typeIs(tv.Type, modPath, "Version") {
 				ds.fixed[0] = versionDecoderItem(lc)
+				if o := lc.obj(sel.X); o != nil {
+					lc.vars[o] = "decoded-sub"
+				}
 				return
 			}
 		}
+	}
+	if lhsIsField {
+		// a field may only receive what the wire carries (or an empty container to be filled from it)
+		okAlloc := false
+		if c, ok := rhs.(*ast.CallExpr); ok {
+			if id, ok := c.Fun.(*ast.Ident); ok && id.Name == "make" {
+				okAlloc = true
+			}
+		}
+		if o := lc.obj(rhs); o != nil {
+			if _, isVar := o.(*types.Var); isVar && lc.vars[o] == "decoded-sub" {
+				okAlloc = true
+			}
+		}
+		if !okAlloc {
+			lc.fail(s, "field %s is assigned from %s, which is not a read of the input: the decoded value is not what the wire carries", lhsField, types.ExprString(rhs))
+		}
+		return
 	}
 	if lc.mentionsExpr(rhs, lc.data) || lc.mentionsExpr(rhs, ds.cursorObj) {
 		// make(Args, 0, argCnt) etc. are fine; anything reading data is not
